@@ -93,7 +93,7 @@ def _replay_one(args):
     return {"tid": tid, "beh": bi, "prof": prof, "ev": h.events, "crashed": h.crashed, "diag": None}
 
 
-def replay_all(behs: List[list], profiles: List[Profile], log_level: int = 100, jobs: int = 12):
+def replay_all(behs: List[list], profiles: List[Profile], log_level=None, jobs: int = 12):
     """returns list of dict(tid, beh_index, profile, ev, crashed); replays run in forked worker processes"""
     import multiprocessing as mp
 
